@@ -18,6 +18,7 @@
    Partial: torn writes to the tree / bitfield / data stores are not in these theorems (a torn page or node is
    re-derived by replay: C08_replay_exact, DESIGN 5.1); tools/c07.py tears every write of every generated
    history at every byte (<= 64 bytes) or at framing/sector boundaries and random cuts, on crate and model. *)
+From HC Require Import ClearRefine Unified1 CrashClear1 TornClear.
 From HC Require Import FlatTree Merkle Core Refine Reopen CrashCore1 CrashCore2 CrashCore3 TornCoreA TornCoreB TornCore.
 From HC Require Import Base NMap Codec CodecFacts Crypto Storage Bitfield Oplog OplogFacts StorageFacts Crash.
 
@@ -401,6 +402,148 @@ Theorem C07_torn_disk_reopens :
            (hyg cr (f_content (d_oplog d)) -> hyg cr (f_content (d_oplog d'))).
 Proof. exact reopen_Y. Qed.
 
+Theorem C07_torn_write_of_a_clear_recovers :
+  forall cr : crypto,
+         crc_ok cr ->
+         (forall x : bytes, Datatypes.length (cr_hash cr x) = 32%nat) ->
+         (forall x : bytes, all_zero (cr_hash cr x) = false) ->
+         (forall x : bytes, bytes_ok (cr_hash cr x) = true) ->
+         forall (f : option bool) (c : core) (d : disk) (j : list sop) (ev : list event) 
+           (bs : list bytes) (cl : N -> bool) (start end_ : N) (c' : core) (w' : world) 
+           (r : res unit) (delta : list sop),
+         let n := N.of_nat (Datatypes.length bs) in
+         ZInv cr c d bs cl ->
+         start < n ->
+         start < end_ ->
+         end_ <= u64_max ->
+         core_clear cr f start end_ c {| w_disk := d; w_journal := j; w_events := ev |} = (c', w', r) ->
+         w_journal w' = rev delta ++ j ->
+         r = Ok tt /\
+         (forall (k : nat) (s : store) (off : N) (data : bytes) (t : nat),
+          nth_error delta k = Some (SW s off data) ->
+          (t < Datatypes.length data)%nat ->
+          exists dk dkt : disk,
+            apply_sops d (firstn k delta) = Some dk /\
+            apply_sop dk (tear (SW s off data) t) = Some dkt /\
+            (tear_safe cr dk (SW s off data) t ->
+             recoversZ cr (c_keypair c) dkt bs (if (k <? 1)%nat then cl else cl_clear cl start end_) \/
+             s = Oplog /\ off < ENTRIES_OFFSET /\ collision cr t)).
+Proof. exact clear_torn_recovers. Qed.
+
+Theorem C07_torn_non_header_write_of_a_clear_recovers :
+  forall cr : crypto,
+         crc_ok cr ->
+         (forall x : bytes, Datatypes.length (cr_hash cr x) = 32%nat) ->
+         (forall x : bytes, all_zero (cr_hash cr x) = false) ->
+         (forall x : bytes, bytes_ok (cr_hash cr x) = true) ->
+         (forall sk m : bytes, Datatypes.length (cr_sign cr sk m) = 64%nat) ->
+         (forall sk m : bytes, bytes_ok (cr_sign cr sk m) = true) ->
+         forall (f : option bool) (c : core) (d : disk) (j : list sop) (ev : list event) 
+           (bs : list bytes) (cl : N -> bool) (start end_ : N) (c' : core) (w' : world) 
+           (r : res unit) (delta : list sop),
+         let n := N.of_nat (Datatypes.length bs) in
+         ZInv cr c d bs cl ->
+         start < n ->
+         start < end_ ->
+         end_ <= u64_max ->
+         core_clear cr f start end_ c {| w_disk := d; w_journal := j; w_events := ev |} = (c', w', r) ->
+         w_journal w' = rev delta ++ j ->
+         forall (k : nat) (s : store) (off : N) (data : bytes) (t : nat),
+         nth_error delta k = Some (SW s off data) ->
+         (t < Datatypes.length data)%nat ->
+         is_slot_write (SW s off data) = false ->
+         exists dk dkt : disk,
+           apply_sops d (firstn k delta) = Some dk /\
+           apply_sop dk (tear (SW s off data) t) = Some dkt /\
+           recoversZ cr (c_keypair c) dkt bs (if (k <? 1)%nat then cl else cl_clear cl start end_).
+Proof. exact clear_torn_recovers_plain. Qed.
+
+Theorem C07_torn_write_of_an_append_recovers_with_clears :
+  forall cr : crypto,
+         crc_ok cr ->
+         (forall x : bytes, Datatypes.length (cr_hash cr x) = 32%nat) ->
+         (forall x : bytes, all_zero (cr_hash cr x) = false) ->
+         (forall x : bytes, bytes_ok (cr_hash cr x) = true) ->
+         (forall sk m : bytes, Datatypes.length (cr_sign cr sk m) = 64%nat) ->
+         (forall sk m : bytes, bytes_ok (cr_sign cr sk m) = true) ->
+         forall (f : option bool) (batch : list bytes) (c : core) (d : disk) (j : list sop) 
+           (ev : list event) (bs : list bytes) (cl : N -> bool) (sk : bytes) (c' : core) 
+           (w' : world) (x : N * N) (delta : list sop),
+         ZInv cr c d bs cl ->
+         kp_secret (c_keypair c) = Some sk ->
+         sumN (map len (bs ++ batch)) <= u64_max ->
+         NODE_SIZE * (2 * N.of_nat (Datatypes.length (bs ++ batch))) <= u64_max ->
+         core_append cr f batch c {| w_disk := d; w_journal := j; w_events := ev |} = (c', w', Ok x) ->
+         w_journal w' = rev delta ++ j ->
+         forall (k : nat) (s : store) (off : N) (data : bytes) (t : nat),
+         nth_error delta k = Some (SW s off data) ->
+         (t < Datatypes.length data)%nat ->
+         exists dk dkt : disk,
+           apply_sops d (firstn k delta) = Some dk /\
+           apply_sop dk (tear (SW s off data) t) = Some dkt /\
+           (tear_safe cr dk (SW s off data) t ->
+            (if (k <? 2)%nat
+             then recoversZ cr (c_keypair c) dkt bs cl
+             else recoversZ cr (c_keypair c) dkt (bs ++ batch) (cl_mask cl (N.of_nat (Datatypes.length bs)))) \/
+            s = Oplog /\ off < ENTRIES_OFFSET /\ collision cr t).
+Proof. exact append_torn_recovers_Z. Qed.
+
+Theorem C07_torn_write_of_make_read_only_recovers :
+  forall cr : crypto,
+         crc_ok cr ->
+         (forall x : bytes, Datatypes.length (cr_hash cr x) = 32%nat) ->
+         (forall x : bytes, all_zero (cr_hash cr x) = false) ->
+         (forall x : bytes, bytes_ok (cr_hash cr x) = true) ->
+         forall (c : core) (d : disk) (bs : list bytes) (cl : N -> bool),
+         ZInv cr c d bs cl ->
+         let pub := kp_public (c_keypair c) in
+         (forall k : nat,
+          exists dk : disk,
+            apply_sops d (firstn k (ReadOnly.ro_ops cr c)) = Some dk /\
+            recoversZ cr (if (k <=? ReadOnlyClear.ro_np c)%nat then c_keypair c else ReadOnly.ro_keypair c) dk
+              bs cl /\ second_call_ok cr pub bs cl dk) /\
+         (forall (k : nat) (s : store) (off : N) (data : bytes) (t : nat),
+          nth_error (ReadOnly.ro_ops cr c) k = Some (SW s off data) ->
+          (t < Datatypes.length data)%nat ->
+          exists dk dkt : disk,
+            apply_sops d (firstn k (ReadOnly.ro_ops cr c)) = Some dk /\
+            apply_sop dk (tear (SW s off data) t) = Some dkt /\
+            (tear_safe cr dk (SW s off data) t ->
+             ((k <= ReadOnlyClear.ro_np c)%nat /\ recoversZ cr (c_keypair c) dkt bs cl \/
+              (ReadOnlyClear.ro_np c <= k)%nat /\ recoversZ cr (ReadOnly.ro_keypair c) dkt bs cl) /\
+             second_call_ok cr pub bs cl dkt \/ s = Oplog /\ off < ENTRIES_OFFSET /\ collision cr t)).
+Proof. exact make_read_only_torn_Z. Qed.
+
+Theorem C07_merged_invariant_from_crash_states :
+  forall (cr : crypto) (c : core) (d : disk) (bs : list bytes) (cl : N -> bool),
+         CrashClear1.YInv cr c d bs cl -> TreeOk (d_tree d) -> ZInv cr c d bs cl.
+Proof. exact YInv_ZInv. Qed.
+
+Theorem C07_merged_invariant_from_torn_states :
+  forall (cr : crypto) (c : core) (d : disk) (bs : list bytes),
+         YInv cr c d bs -> ZInv cr c d bs (fun _ : N => false).
+Proof. exact TornYInv_ZInv. Qed.
+
+Theorem C07_torn_disk_with_clears_reopens :
+  forall cr : crypto,
+         crc_ok cr ->
+         (forall x : bytes, Datatypes.length (cr_hash cr x) = 32%nat) ->
+         (forall x : bytes, all_zero (cr_hash cr x) = false) ->
+         (forall x : bytes, bytes_ok (cr_hash cr x) = true) ->
+         forall (kp : keypair) (d : disk) (bs : list bytes) (cl : N -> bool),
+         ZDisk cr kp d bs cl ->
+         exists (c' : core) (d' : disk) (ops : list sop),
+           core_open cr None true d = (d', ops, Ok c') /\
+           ZInv cr c' d' bs cl /\
+           c_keypair c' = kp /\
+           c_skip c' = 0 /\
+           d_tree d' = d_tree d /\
+           d_data d' = d_data d /\
+           d_bitfield d' = d_bitfield d /\
+           (ops = [] /\ d' = d \/ ops = [ST Oplog ENTRIES_OFFSET]) /\
+           (hyg cr (f_content (d_oplog d)) -> hyg cr (f_content (d_oplog d'))).
+Proof. exact reopen_Z. Qed.
+
 Print Assumptions C07_torn_entry_is_no_frame.
 Print Assumptions C07_torn_append_recovers_before.
 Print Assumptions C07_torn_flush_before_after_or_collision.
@@ -424,3 +567,13 @@ Print Assumptions TornCore.toy_every_tear_of_a_flushing_append.
 Print Assumptions TornCore.torn_page_partial.
 Print Assumptions TornCore.reopen_to_XInv_refuted.
 Print Assumptions TornCore.toy_torn_history2.
+Print Assumptions C07_torn_write_of_a_clear_recovers.
+Print Assumptions C07_torn_non_header_write_of_a_clear_recovers.
+Print Assumptions C07_torn_write_of_an_append_recovers_with_clears.
+Print Assumptions C07_torn_write_of_make_read_only_recovers.
+Print Assumptions C07_merged_invariant_from_crash_states.
+Print Assumptions C07_merged_invariant_from_torn_states.
+Print Assumptions C07_torn_disk_with_clears_reopens.
+Print Assumptions TornClear.crc_every_tear_of_a_flushing_clear.
+Print Assumptions TornClear.crc_stale_unread_bit_state.
+Print Assumptions TornClear.crc_every_tear_of_make_read_only.
